@@ -27,6 +27,12 @@ func judgeStream(prop, cfg string, rp *ref.Problem, cost *ref.Cost, items []solv
 	if len(items) >= 3 {
 		out.probe("stream-len>=3")
 	}
+	if len(items) >= 6 {
+		out.probe("stream-len>=6")
+	}
+	if len(items) >= 10 {
+		out.probe("stream-len>=10")
+	}
 	prev := 0
 	for i, r := range items {
 		if r.Status == solver.Sat {
